@@ -30,6 +30,7 @@ func c17(c *Ctx) {
 		wr := "litefs.(*WALReader).ReadFrame"
 		zero := G(`\(0 == encoding/binary\.\(bigEndian\)\.Uint32\(encoding/binary\.BigEndian, .*\[0:\]\)\)|\(encoding/binary\.\(bigEndian\)\.Uint32\(encoding/binary\.BigEndian, .*\[0:\]\) == 0\)`, false)
 		c.Guarded("wal-valid/frame-page-nonzero", wr, p.SuccessReturn, gs(zero), 1, "a WAL frame is accepted only when its page number is not zero", "SQLite never accepts such a frame; the checkpoint would compute a negative offset after other frames were already copied")
+		c.walCommitScanPageNonzero("wal-valid/commit-scan")
 		// checkpoint: WAL page size equals the database's (or teaches it)
 		ro := "litefs.(*DB).readWALPageOffsets"
 		c.GuardedPaths("ckpt/wal-page-size-matches", ro, p.PlainCalls("litefs.(*WALReader).ReadFrame"), [][]*Guard{{
@@ -217,6 +218,7 @@ func c17(c *Ctx) {
 			}
 		}
 	}
+	c.ckptCopiesAll("ckpt")
 	c.ErrHandled("ckpt/errors", ck, p.PlainCalls("litefs.(*DB).readWALPageOffsets", "litefs.(*DB).writeDatabasePage", "litefs.(*DB).truncateDatabase", "io.ReadFull"), nil, 4, "every step of the checkpoint propagates its error", "")
 
 	// ---- progress ----
